@@ -6,7 +6,7 @@ use super::verif_kani_lorawan_device_mac_common as mc;
 use super::session::verif_kani_lorawan_device_session_rx::any_session;
 use mc::rt;
 
-fn stub_prepare<const N: usize>(
+pub(crate) fn stub_prepare_pub<const N: usize>(
     s: &mut Session,
     _data: &SendData<'_>,
     _tx: &mut RadioBuffer<N>,
@@ -34,7 +34,7 @@ fn ref_max_eirp(r: region::Region) -> i16 {
     }
 }
 
-fn any_mac(ri: usize) -> Mac {
+pub(crate) fn any_mac_pub(ri: usize) -> Mac {
     let r = rt::REGIONS[ri];
     let mut region = rt::any_region(r);
     let cfg = mc::any_configuration();
@@ -94,7 +94,7 @@ fn check_tx(mac0: &mut Mac, ri: usize, join: bool, tx: &radio::TxConfig, w: &RxW
 }
 
 fn tx_data_step(ri: usize) {
-    let mut mac = any_mac(ri);
+    let mut mac = any_mac_pub(ri);
     let mut pre = Mac {
         configuration: mac.configuration,
         region: mac.region.clone(),
@@ -118,7 +118,7 @@ fn tx_data_step(ri: usize) {
 }
 
 fn tx_join_step(ri: usize) {
-    let mut mac = any_mac(ri);
+    let mut mac = any_mac_pub(ri);
     let mut pre = Mac {
         configuration: mac.configuration,
         region: mac.region.clone(),
@@ -147,7 +147,7 @@ fn tx_join_step(ri: usize) {
 
 /// termination: with an enumerating RNG every retry loop must succeed within its mask size
 fn select_terminates(ri: usize, join: bool, budget: u32) {
-    let mut mac = any_mac(ri);
+    let mut mac = any_mac_pub(ri);
     let mut rng = mc::EnumRng::new(budget);
     let frame = if join { Frame::Join } else { Frame::Data };
     let (_tx, ch) = mac.region.create_tx_config(&mut rng, mac.configuration.data_rate, &frame);
@@ -157,7 +157,7 @@ fn select_terminates(ri: usize, join: bool, budget: u32) {
 
 /// same for fixed-plan join channels, which consume a draw in 3-bit slices
 fn join_terminates_slices(ri: usize, budget: u32) {
-    let mut mac = any_mac(ri);
+    let mut mac = any_mac_pub(ri);
     let mut rng = mc::SliceRng::new(budget);
     let (_tx, ch) = mac.region.create_tx_config(&mut rng, mac.configuration.data_rate, &Frame::Join);
     assert!(ch.frequency != 0, "C09: a channel was selected");
@@ -166,7 +166,7 @@ fn join_terminates_slices(ri: usize, budget: u32) {
 
 macro_rules! h { ($name:ident, $body:expr, $unw:expr) => {
     #[kani::proof]
-    #[kani::stub(Session::prepare_buffer, stub_prepare)]
+    #[kani::stub(Session::prepare_buffer, stub_prepare_pub)]
     #[kani::unwind($unw)]
     fn $name() { $body }
 }; }
